@@ -102,7 +102,29 @@ MoveLate(X, L, cands) ==
            js == {j \in (i + 1)..Len(L) : L[j].t = "pt" /\ L[j].u = nb /\ L[j].o = 0}
        IN  IF js = {} THEN MoveLate(X, L, cands \ {i})
            ELSE LET j == CHOOSE x \in js : TRUE
-                IN  MoveLate(X, SubSeq(L, 1, i - 1) \o SubSeq(L, i + 1, j - 1) \o <<L[i]>> \o SubSeq(L, j, Len(L)),
+                    \* the directives that sat at offset 0 of the following block (its own
+                    \* .cfi_startproc ...) now come behind the re-homed .cfi_endproc, i.e. behind
+                    \* the patch as well
+                    as == {a \in (i + 1)..(j - 1) : L[a].t = "cfi" /\ L[a].k = "L" /\ L[a].u = nb /\ L[a].o = 0
+                                                    /\ L[a].src # "patch"}
+                    between == SubSeq([q \in 1..Len(L) |-> q], i + 1, j - 1)
+                    rest == SelectSeq(between, LAMBDA q : q \notin as)
+                    moved == SelectSeq(between, LAMBDA q : q \in as)
+                    \* When the following block is replaced / deleted as a whole, its offset-0
+                    \* group (now headed by the re-homed .cfi_endproc) goes into the removed middle
+                    \* block, whose "balanced procedure" rule then drops the block's own procedure:
+                    \* its .cfi_startproc group and its closing .cfi_endproc disappear.
+                    nbn == BlockByU(X.t.pre, nb).n
+                    opens == \E a \in as : \E q \in DOMAIN L[a].v : L[a].v[q].op = "startproc"
+                    ends == {e \in j..Len(L) : L[e].t = "cfi" /\ L[e].k = "R" /\ L[e].u = nb /\ L[e].o = nbn
+                                               /\ L[e].src # "patch" /\ L[e].v # <<>> /\ L[e].v[1].op = "endproc"}
+                    swallow == AllUnitsCoveredBy(X.t.pre, X.t.reqs, nb) /\ opens /\ ends # {}
+                    tailPart == IF ~swallow THEN SubSeq(L, j, Len(L))
+                                ELSE LET e == CHOOSE x \in ends : TRUE
+                                         cut == [L[e] EXCEPT !.v = Tail(L[e].v), !.v2 = Tail(L[e].v)]
+                                     IN  SubSeq(L, j, e - 1) \o (IF cut.v = <<>> THEN <<>> ELSE <<cut>>) \o SubSeq(L, e + 1, Len(L))
+                IN  MoveLate(X, SubSeq(L, 1, i - 1) \o [q \in 1..Len(rest) |-> L[rest[q]]] \o <<L[i]>>
+                                \o (IF swallow THEN <<>> ELSE [q \in 1..Len(moved) |-> L[moved[q]]]) \o tailPart,
                              cands \ {i})
 CfiExpected0(E, L0, R0, dev) ==
   LET kept == SelectSeq(E, LAMBDA it :
